@@ -13,6 +13,7 @@ CONSTANTS
   NWs = {1}
   GWs = {1}
   Buds = {0}
+  BudAllowed <- AllMetrics
   NSAs = {FALSE}
   OptSets <- OptsPlain
   Budgets = {5}
